@@ -14,7 +14,8 @@
 //   write <id> <path> <max_points> <libcfg> <kind> <p0,p1,...>
 //         builds member (libcfg, kind, params) of the fixed library family below, dumps it (dump.hpp,
 //         struct walk) BEFORE writing, then write_gds(path, max_points, fixed timestamp 2024-03-05
-//         06:07:08) -> {"id":..,"job":"write","error":<int>,"source":<dump::library>}
+//         06:07:08) -> {"id":..,"job":"write","error":<int>,"history":[...],"source":<dump::library>}
+//         ("history": for kind prophist the sequence of property calls that built the element, else [])
 //   units <id> <path>                      gds_units -> {"id":..,"job":"units","error":..,"unit":..,"precision":..}
 //   To add a job kind: add a branch in run_job(); keep one JSON line per job.
 //
@@ -58,7 +59,7 @@ struct Kind { const char* name; std::vector<Dim> dims; };
 
 static const std::vector<Kind>& kinds() {
     static const std::vector<Kind> k = {
-        {"polygon", {{"nv", 4, "3,4,5,9 vertices (convex, parabola)"},
+        {"polygon", {{"nv", 5, "3,4,5,9,50 vertices (convex, parabola)"},
                      {"coords", 3, "db-grid; +0.3 db unit; +0.7 db unit shifted to -2.146e9 db units"},
                      {"rep", 6, "none; rect 2x2; regular 2x2; explicit(2); explicit_x(2); explicit_y(2)"},
                      {"props", 6, "none; (1,'a'); (2,'ab'); (1,'abc')+(127,'abcd'); raw bytes without NUL (6,'abc'); raw (7,'abcd')"},
@@ -66,9 +67,9 @@ static const std::vector<Kind>& kinds() {
         {"bigpolygon", {{"nv", 4, "8189,8190,8191,8200 vertices on a circle"},
                         {"rep", 2, "none; rect 2x1"},
                         {"props", 2, "none; (1,'a')"}}},
-        {"flexpath", {{"npts", 3, "2 points; 3 points with a corner; 3 collinear points"},
+        {"flexpath", {{"npts", 4, "2 points; 3 points with a corner; 3 collinear points; 4 points zigzag"},
                       {"end", 5, "flush; round; half-width; extended; smooth"},
-                      {"width", 3, "0; 0.1; 0.0013"},
+                      {"width", 4, "0; 0.1; 0.0013; 2"},
                       {"scale_width", 2, "true; false"},
                       {"ext", 3, "(0.05,0.02); (-0.03,0); (0,-0.01)  (used by end=extended)"},
                       {"nel", 2, "1 element; 2 elements (zero offsets, different tags/widths)"},
@@ -76,8 +77,8 @@ static const std::vector<Kind>& kinds() {
                       {"props", 2, "none; (3,'xyz')"}}},
         {"nonsimple", {{"end", 2, "flush; round"}, {"nel", 2, "1; 2 elements with offsets"}}},
         {"label", {{"anchor", 9, "NW,N,NE,W,O,E,SW,S,SE"},
-                   {"rot", 3, "0; pi/2; 0.3"},
-                   {"mag", 2, "1; 2.5"},
+                   {"rot", 5, "0; pi/2; 0.3; pi; -pi/2"},
+                   {"mag", 3, "1; 2.5; 0.5"},
                    {"refl", 2, "false; true"},
                    {"textlen", 3, "1; 2; 3 characters"},
                    {"rep", 2, "none; rect 2x1"},
@@ -86,11 +87,17 @@ static const std::vector<Kind>& kinds() {
         {"reference", {{"target", 2, "by pointer to KID; by name to an absent cell"},
                        {"rot", 5, "0; pi/2; pi; 3pi/2; 0.3"},
                        {"refl", 2, "false; true"},
-                       {"mag", 2, "1; 0.5"},
-                       {"rep", 8, "none; rect 2x3; rect 1x1; regular aligned with the rotated axes; regular aligned, axes swapped; regular skew; explicit(2); rect 3x1 negative spacing"},
+                       {"mag", 3, "1; 0.5; 3"},
+                       {"rep", 10, "none; rect 2x3; rect 1x1; regular aligned with the rotated axes; regular aligned, axes swapped; regular skew; explicit(2); rect 3x1 negative spacing; rect 1x4; regular 1x3 with zero v1"},
                        {"props", 2, "none; (5,'rp')"},
                        {"origin", 2, "db-grid; off-grid (+0.3,+0.7 db unit)"}}},
         {"bigarray", {{"cols", 4, "32767; 32768; 65535; 65536 columns x 1 row, spacing 1 db unit"}}},
+        // GDSII properties built by a HISTORY of set_gds_property / remove_gds_property calls on one element.
+        // op: 0 nothing; 1-4 set attribute 1 to V[op-1]; 5-8 set attribute 2 to V[op-5]; 9 remove attribute 1;
+        // 10 remove attribute 2;  V = {"", "ab", "abcdefg", "xy"}.  The result line echoes the history; the
+        // judge applies its own last-write-wins model to it (not the dump).
+        {"prophist", {{"element", 4, "polygon; simple path; label; reference"},
+                      {"op1", 11, "see above"}, {"op2", 11, "see above"}, {"op3", 11, "see above"}, {"op4", 11, "see above"}}},
     };
     return k;
 }
@@ -169,7 +176,7 @@ static bool build_family(Library& lib, int libcfg, const std::string& kind, cons
     if (kind == "polygon" || kind == "bigpolygon") {
         Polygon* g = (Polygon*)allocate_clear(sizeof(Polygon));
         if (kind == "polygon") {
-            static const int nvs[] = {3, 4, 5, 9};
+            static const int nvs[] = {3, 4, 5, 9, 50};
             int nv = nvs[p[0]];
             double dx = p[1] == 0 ? 0 : p[1] == 1 ? 0.3 : 0.7, shift = p[1] == 2 ? -2146000000.0 : 0;
             for (int i = 0; i < nv; i++) g->point_array.append(Vec2{(1000.0 * i + dx + shift) * DB, (100.0 * i * i - 7 * i - dx) * DB});
@@ -192,7 +199,7 @@ static bool build_family(Library& lib, int libcfg, const std::string& kind, cons
         FlexPath* f = (FlexPath*)allocate_clear(sizeof(FlexPath));
         bool simple = kind == "flexpath";
         int npts = simple ? p[0] : 1, end = simple ? p[1] : (p[0] ? 1 : 0), nel = simple ? p[5] + 1 : p[1] + 1;
-        static const double widths[] = {0, 0.1, 0.0013};
+        static const double widths[] = {0, 0.1, 0.0013, 2};
         double w[2] = {simple ? widths[p[2]] : 0.2, simple ? widths[p[2]] * 2 + 0.002 : 0.1};
         double off[2] = {0, 0};
         if (!simple && nel == 2) { off[0] = -0.3; off[1] = 0.3; }
@@ -203,9 +210,13 @@ static bool build_family(Library& lib, int libcfg, const std::string& kind, cons
         } else if (npts == 1) {
             f->segment(Vec2{11.0, -2.0}, NULL, NULL, false);
             f->segment(Vec2{11.0, 5.5}, NULL, NULL, false);
-        } else {
+        } else if (npts == 2) {
             f->segment(Vec2{6.0, 0.5}, NULL, NULL, false);
             f->segment(Vec2{11.0, 3.0}, NULL, NULL, false);
+        } else {
+            f->segment(Vec2{11.0, -2.0}, NULL, NULL, false);
+            f->segment(Vec2{11.0, 5.5}, NULL, NULL, false);
+            f->segment(Vec2{-4.25, 5.5}, NULL, NULL, false);
         }
         f->simple_path = simple;
         f->scale_width = simple ? p[3] == 0 : true;
@@ -223,11 +234,11 @@ static bool build_family(Library& lib, int libcfg, const std::string& kind, cons
     } else if (kind == "label") {
         Label* l = (Label*)allocate_clear(sizeof(Label));
         static const Anchor anchors[] = {Anchor::NW, Anchor::N, Anchor::NE, Anchor::W, Anchor::O, Anchor::E, Anchor::SW, Anchor::S, Anchor::SE};
-        static const double rots[] = {0, M_PI / 2, 0.3};
+        static const double rots[] = {0, M_PI / 2, 0.3, M_PI, -M_PI / 2};
         static const char* texts[] = {"T", "Tx", "Txt"};
         l->anchor = anchors[p[0]];
         l->rotation = rots[p[1]];
-        l->magnification = p[2] ? 2.5 : 1;
+        l->magnification = p[2] == 0 ? 1 : p[2] == 1 ? 2.5 : 0.5;
         l->x_reflection = p[3] != 0;
         l->text = copy_string(texts[p[4]], NULL);
         set_rep(l->repetition, p[5] ? 6 : 0);
@@ -252,7 +263,7 @@ static bool build_family(Library& lib, int libcfg, const std::string& kind, cons
             else { r->type = ReferenceType::Name; r->name = copy_string(parity ? "ABSENT" : "ABSENTX", NULL); }
             r->rotation = rots[p[1]];
             r->x_reflection = p[2] != 0;
-            r->magnification = p[3] ? 0.5 : 1;
+            r->magnification = p[3] == 0 ? 1 : p[3] == 1 ? 0.5 : 3;
             double ca = cos(r->rotation), sa = sin(r->rotation);
             Repetition& rep = r->repetition;
             switch (p[4]) {
@@ -264,13 +275,73 @@ static bool build_family(Library& lib, int libcfg, const std::string& kind, cons
                 case 5: rep.type = RepetitionType::Regular; rep.columns = 2; rep.rows = 2; rep.v1 = Vec2{10, 5}; rep.v2 = Vec2{-3, 8}; break;
                 case 6: rep.type = RepetitionType::Explicit; rep.offsets.append(Vec2{7, 1}); rep.offsets.append(Vec2{-2, 9}); break;
                 case 7: rep.type = RepetitionType::Rectangular; rep.columns = 3; rep.rows = 1; rep.spacing = Vec2{-12, -4}; break;
+                case 8: rep.type = RepetitionType::Rectangular; rep.columns = 1; rep.rows = 4; rep.spacing = Vec2{30, 20}; break;
+                case 9: rep.type = RepetitionType::Regular; rep.columns = 1; rep.rows = 3; rep.v1 = Vec2{0, 0}; rep.v2 = Vec2{-7 * sa, 7 * ca}; break;
             }
             if (p[5]) set_gds_property(r->properties, 5, "rp");
             r->origin = p[6] ? Vec2{4 + 0.3 * DB, -3 + 0.7 * DB} : Vec2{4, -3};
         }
         top->reference_array.append(r);
+    } else if (kind == "prophist") {
+        Property** props = NULL;
+        if (p[0] == 0) {
+            Polygon* g = (Polygon*)allocate_clear(sizeof(Polygon));
+            g->tag = make_tag(1, 2);
+            g->point_array.append(Vec2{0, 0});
+            g->point_array.append(Vec2{3, 0});
+            g->point_array.append(Vec2{0, 4});
+            top->polygon_array.append(g);
+            props = &g->properties;
+        } else if (p[0] == 1) {
+            FlexPath* f = (FlexPath*)allocate_clear(sizeof(FlexPath));
+            f->init(Vec2{0, 0}, 1, 0.5, 0, 0.01, make_tag(3, 4));
+            f->segment(Vec2{10, 0}, NULL, NULL, false);
+            f->simple_path = true;
+            f->scale_width = true;
+            top->flexpath_array.append(f);
+            props = &f->properties;
+        } else if (p[0] == 2) {
+            Label* l = (Label*)allocate_clear(sizeof(Label));
+            l->magnification = 1;
+            l->text = copy_string("L", NULL);
+            l->origin = Vec2{1, 1};
+            top->label_array.append(l);
+            props = &l->properties;
+        } else {
+            Reference* r = (Reference*)allocate_clear(sizeof(Reference));
+            r->type = ReferenceType::Cell;
+            r->cell = kid;
+            r->magnification = 1;
+            r->origin = Vec2{2, 3};
+            top->reference_array.append(r);
+            props = &r->properties;
+        }
+        static const char* V[] = {"", "ab", "abcdefg", "xy"};
+        for (int i = 1; i <= 4; i++) {
+            int op = p[i];
+            if (op >= 1 && op <= 4) set_gds_property(*props, 1, V[op - 1]);
+            else if (op >= 5 && op <= 8) set_gds_property(*props, 2, V[op - 5]);
+            else if (op == 9) remove_gds_property(*props, 1);
+            else if (op == 10) remove_gds_property(*props, 2);
+        }
     }
     return true;
+}
+
+// the history of a prophist member, echoed for the judge: [["set",1,"ab"],["remove",2], ...]
+static std::string history_json(const std::string& kind, const std::vector<int>& p) {
+    std::vector<std::string> h;
+    if (kind == "prophist") {
+        static const char* V[] = {"", "ab", "abcdefg", "xy"};
+        for (size_t i = 1; i < p.size(); i++) {
+            int op = p[i];
+            if (op >= 1 && op <= 4) h.push_back(vf::jarr({vf::jstr("set"), "1", vf::jstr(V[op - 1])}));
+            else if (op >= 5 && op <= 8) h.push_back(vf::jarr({vf::jstr("set"), "2", vf::jstr(V[op - 5])}));
+            else if (op == 9) h.push_back(vf::jarr({vf::jstr("remove"), "1"}));
+            else if (op == 10) h.push_back(vf::jarr({vf::jstr("remove"), "2"}));
+        }
+    }
+    return vf::jarr(h);
 }
 
 // --------------------------------------------------------------------------------------------- jobs
@@ -303,7 +374,7 @@ static std::string run_job(const std::vector<std::string>& t) {
         stamp.tm_year = 124; stamp.tm_mon = 2; stamp.tm_mday = 5; stamp.tm_hour = 6; stamp.tm_min = 7; stamp.tm_sec = 8;
         ErrorCode e = lib.write_gds(t[2].c_str(), (uint64_t)atoll(t[3].c_str()), &stamp);
         lib.free_all();
-        return jobj({{"id", jstr(id)}, {"job", jstr("write")}, {"error", jint((int)e)}, {"source", src}});
+        return jobj({{"id", jstr(id)}, {"job", jstr("write")}, {"error", jint((int)e)}, {"history", history_json(t[5], p)}, {"source", src}});
     }
     return jobj({{"id", jstr(id)}, {"job", jstr("bad")}, {"detail", jstr("unknown job or wrong argument count: " + job)}});
 }
